@@ -3,7 +3,9 @@ package c09
 import (
 	"context"
 	"fmt"
+	"github.com/cloudwego/hertz/pkg/network"
 	"strings"
+	"sync/atomic"
 	"testing"
 
 	"github.com/cloudwego/hertz/pkg/app"
@@ -85,4 +87,45 @@ func TestC09Wiring(t *testing.T) {
 	}
 	rec.Excluded("D60-engine-wiring-set-by-a-handler-survives-recycling", known)
 	_ = strings.TrimSpace
+}
+
+// TestC09HijackAfterPanic: a handler registers a hijack handler (an upgrade) and then panics; nothing in
+// the engine recovers it (no recovery middleware: the transport's worker recovers, closes that connection
+// and the process goes on, as netpoll does). The context goes back to the pool through Serve's deferred
+// block. The next request that draws it, on another connection, is an ordinary request: it is answered, its
+// connection is not handed to the earlier request's hijack closure, and Hijacked() is false.
+func TestC09HijackAfterPanic(t *testing.T) {
+	rec := ev.New("hijack-after-panic")
+	var hijackRuns int32
+	var probeHijacked bool
+	s := sconn.NewServer(func(h *server.Hertz) {
+		h.GET("/upgrade", func(c context.Context, ctx *app.RequestContext) {
+			ctx.Hijack(func(conn network.Conn) { atomic.AddInt32(&hijackRuns, 1) })
+			panic("the upgrade handler fails after it has registered its hijack handler")
+		})
+		h.GET("/probe", func(c context.Context, ctx *app.RequestContext) {
+			probeHijacked = ctx.Hijacked()
+			ctx.SetBodyString("probe")
+		})
+	})
+	defer s.Close()
+	for round := 0; round < 6; round++ {
+		res := s.Serve(sconn.New([][]byte{[]byte("GET /upgrade HTTP/1.1\r\nHost: a\r\n\r\n")}, sconn.EOF))
+		rec.Case(true, ev.HashString(fmt.Sprint(round)), "panic-after-hijack-registration")
+		if res.Panic == nil {
+			t.Fatalf("harness: the panic of the upgrade handler did not leave the engine")
+		}
+		atomic.StoreInt32(&hijackRuns, 0)
+		probeHijacked = false
+		res = s.Serve(sconn.New([][]byte{[]byte("GET /probe HTTP/1.1\r\nHost: a\r\n\r\nGET /probe HTTP/1.1\r\nHost: a\r\n\r\n")}, sconn.EOF))
+		if res.Panic != nil {
+			t.Fatalf("panic while serving the probe: %v", res.Panic)
+		}
+		n := strings.Count(string(res.Output), "HTTP/1.1 200")
+		if probeHijacked || atomic.LoadInt32(&hijackRuns) != 0 || n != 2 {
+			msg := fmt.Sprintf("after a handler that registered a hijack handler and panicked, two ordinary requests on a new connection: Hijacked()=%v, the earlier request's hijack closure ran %d time(s), %d of 2 requests answered: %q", probeHijacked, atomic.LoadInt32(&hijackRuns), n, res.Output)
+			ev.Fail(prop, "hijack-after-panic", map[string]int{"round": round}, msg)
+			t.Fatalf("%s", msg)
+		}
+	}
 }
